@@ -13,6 +13,8 @@ pub tracked struct DW {
     pub ghost file_len: nat,
     pub ghost lock_held: bool,                // a layout write guard is alive
     pub ghost wrote: nat,                     // db.write calls so far
+    pub ghost registered: bool,               // the region is in the Regions table (id -> slot)
+    pub ghost refs: nat,                      // Arc strong count of the region handle
 }
 
 impl DW {
@@ -30,11 +32,18 @@ impl DW {
         &&& tiles4(self.r(), self.h, self.p, self.v)
         &&& aligned_map(self.others) && aligned_map(self.h) && aligned_map(self.p) && aligned_map(self.v)
     }
+    // the lock invariant when this region is not (or no longer) part of the layout
+    pub open spec fn inv_gone(self) -> bool {
+        &&& self.my_key is None
+        &&& tiles4(self.others, self.h, self.p, self.v)
+        &&& aligned_map(self.others) && aligned_map(self.h) && aligned_map(self.p) && aligned_map(self.v)
+    }
     // every extent lies inside the data file
-    pub open spec fn in_file(self) -> bool { forall|x: int| cover4(self.r(), self.h, self.p, self.v, x) ==> x < self.file_len }
+    pub open spec fn in_file(self) -> bool { all_below(self.r(), self.h, self.p, self.v, self.file_len as int) }
     pub open spec fn same_state(self, o: DW) -> bool {
         self.others == o.others && self.my_key == o.my_key && self.h == o.h && self.p == o.p && self.v == o.v
         && self.start == o.start && self.len == o.len && self.reserved == o.reserved && self.mine == o.mine
+        && self.registered == o.registered
     }
     // where this call may put bytes: its own extent, or the reservation it holds for its relocation
     pub open spec fn may_write(self, at: usize, n: int) -> bool {
@@ -60,11 +69,15 @@ impl Region {
     { unimplemented!() }
     #[verifier::external_body]
     pub fn meta_mut(&self, Tracked(w): Tracked<&mut DW>) -> (g: MetaW) ensures *final(w) == *old(w) { unimplemented!() }
+    // Arc::strong_count(self.arc())
+    #[verifier::external_body]
+    pub fn strong_count(&self, Tracked(w): Tracked<&mut DW>) -> (r: usize) ensures *final(w) == *old(w), r == old(w).refs { unimplemented!() }
     #[verifier::external_body] pub fn mark_dirty_abs(&self, region_start: usize, abs_start: usize, len: usize) requires abs_start >= region_start { unimplemented!() }
     #[verifier::external_body] pub fn mark_dirty(&self, offset: usize, len: usize) requires offset + len <= usize::MAX { unimplemented!() }
 }
 impl MetaR {
     pub uninterp spec fn v(&self) -> (usize, usize, usize);
+    #[verifier::external_body] pub fn id(&self) -> (r: &StrH) { unimplemented!() }
     #[verifier::external_body] pub fn start(&self) -> (r: usize) ensures r == self.v().0 { unimplemented!() }
     #[verifier::external_body] pub fn len(&self) -> (r: usize) ensures r == self.v().1 { unimplemented!() }
     #[verifier::external_body] pub fn reserved(&self) -> (r: usize) ensures r == self.v().2 { unimplemented!() }
@@ -88,8 +101,40 @@ impl MetaW {
     { unimplemented!() }
     #[verifier::external_body] pub fn write_if_dirty(&self, index: usize, regions: &RegionsR) { unimplemented!() }
 }
+#[verifier::external_body] pub struct RegionsW { _p: core::marker::PhantomData<u8> }
+impl RegionsW {
+    // Regions::remove (regions.rs): refuses while other handles exist (the caller's and the table's are expected), else clears the slot
+    #[verifier::external_body]
+    pub fn remove(&mut self, region: &Region, Tracked(w): Tracked<&mut DW>) -> (r: Result<()>)
+        ensures r is Ok <==> (old(w).refs <= 2 && old(w).registered),
+                r is Ok ==> *final(w) == (DW { registered: false, refs: (old(w).refs - 1) as nat, ..*old(w) }),
+                r is Err ==> *final(w) == *old(w)
+    { unimplemented!() }
+    #[verifier::external_body]
+    pub fn get_from_id_cloned(&self, id: &StrH, Tracked(w): Tracked<&mut DW>) -> (r: Option<Region>)
+        ensures *final(w) == *old(w), r is Some <==> old(w).registered
+    { unimplemented!() }
+    // Regions::create (regions.rs): a fresh handle with (start, len 0, reserved PAGE_SIZE), filed under the id.
+    // ASSUMED not to fail: its failure modes are an I/O error while growing the metadata file and an id collision that the caller excluded.
+    #[verifier::external_body]
+    pub fn create(&mut self, db: &Database, id: StrH, start: usize, Tracked(w): Tracked<&mut DW>) -> (r: Result<Region>)
+        requires !old(w).registered, start % 4096 == 0, old(w).my_key is None
+        ensures r is Ok, *final(w) == (DW { registered: true, start: start, len: 0, reserved: 4096, refs: 2, ..*old(w) })
+    { unimplemented!() }
+}
 impl Database {
     #[verifier::external_body] pub fn regions(&self) -> RegionsR { unimplemented!() }
+    #[verifier::external_body] pub fn regions_mut(&self) -> RegionsW { unimplemented!() }
+    #[verifier::external_body]
+    pub fn get_region(&self, id: &StrH, Tracked(w): Tracked<&mut DW>) -> (r: Option<Region>)
+        ensures *final(w) == *old(w), r is Some <==> old(w).registered
+    { unimplemented!() }
+    // RwLock read guard on the layout (the world does not distinguish read from write guards)
+    #[verifier::external_body]
+    pub fn layout(&self, Tracked(w): Tracked<&mut DW>) -> (g: LayoutW)
+        requires !old(w).lock_held
+        ensures *final(w) == (DW { lock_held: true, ..*old(w) })
+    { unimplemented!() }
     // RwLock write guard on the layout
     #[verifier::external_body]
     pub fn layout_mut(&self, Tracked(w): Tracked<&mut DW>) -> (g: LayoutW)
@@ -121,7 +166,7 @@ impl Database {
 // releasing the layout write guard: the lock invariant must hold again
 #[verifier::external_body]
 pub fn drop_layout(g: LayoutW, Tracked(w): Tracked<&mut DW>)
-    requires old(w).lock_held, old(w).inv()
+    requires old(w).lock_held, old(w).inv() || old(w).inv_gone()
     ensures *final(w) == (DW { lock_held: false, ..*old(w) })
 { unimplemented!() }
 #[verifier::external_body] pub fn drop<T>(t: T) { }
@@ -175,6 +220,20 @@ impl LayoutW {
                 forall|a: usize| old(w).p.contains_key(a) ==> a + old(w).p[a] <= r,
                 forall|a: usize| old(w).v.contains_key(a) ==> a + old(w).v[a] <= r,
                 r == 0 || cover4(old(w).r(), old(w).h, old(w).p, old(w).v, r - 1)
+    { unimplemented!() }
+    // U1 Layout::remove_region: the extent becomes a pending hole, the layout drops its handle
+    #[verifier::external_body]
+    pub fn remove_region(&mut self, region: &Region, Tracked(w): Tracked<&mut DW>) -> (r: Result<()>)
+        requires old(w).lock_held
+        ensures r is Ok <==> old(w).my_key == Some(old(w).start),
+                r is Ok ==> *final(w) == (DW { my_key: None, p: old(w).p.insert(old(w).start, old(w).reserved), refs: (old(w).refs - 1) as nat, ..*old(w) }),
+                r is Err ==> *final(w) == *old(w)
+    { unimplemented!() }
+    // U1 Layout::insert_region
+    #[verifier::external_body]
+    pub fn insert_region(&mut self, start: usize, region: &Region, Tracked(w): Tracked<&mut DW>)
+        requires old(w).lock_held, old(w).my_key is None, !old(w).others.contains_key(start)
+        ensures *final(w) == (DW { my_key: Some(start), refs: old(w).refs + 1, ..*old(w) })
     { unimplemented!() }
     // remove_region + insert_region: the old extent goes to `pending`, the region is filed under new_start
     #[verifier::external_body]
